@@ -2,7 +2,7 @@
 // add_text (3 overloads), output_to_column, cmt_output_indent and the tab-stop helpers of prototypes.h,
 // sliced verbatim.  write_char()/write_string() are *declared only*: every proof replaces them by their
 // code-point-sink contracts (the byte-level meaning of write_char is C09).
-#include "/repo/src/token_enum.h"
+#include "token_enum.h"      /* from the working tree: -I <repo>/src */
 #define VERIF_E_TOKEN
 #include "base.h"
 #include "containers.h"
